@@ -457,6 +457,12 @@ func (w *World) timeNs(fr *frame, v Value) *Term {
 // scheduling point and the clock only moves forward.
 func (w *World) sleep(t *Thread, fr *frame, d *Term) {
 	w.res.Models["time.Sleep"] = true
+	if w.timersFire() {
+		// a sleep is a timer of its own: the thread resumes when the clock reaches it
+		ch := w.newModelTimer(fr, d)
+		w.block(t, "Sleep", func() bool { return len(ch.items()) > 0 })
+		return
+	}
 	wake := w.tt.Bin(OpAdd, w.now(), d)
 	if len(w.threads) > 1 {
 		w.yield(t, "Sleep")
